@@ -15,7 +15,9 @@
     approx::abs_diff_eq!/abs_diff_ne! (2^-52 in the implementation, [RX] = [RXe 2^-52]); e = 0 reads the
     tests `abs_diff_eq!(a, 0)` as `a = 0`.  [band_free e w]: no coefficient lies in the band 0 < |w_j| <= e.
     [objective cols y (repeat l1 p) (repeat l2 p) w] = 1/2 |y - X w|^2 + l1 |w|_1 + l2/2 |w|^2 is n times the
-    documented objective for l1 = n*l1_ratio*penalty, l2 = n*(1-l1_ratio)*penalty (y: the centred target). *)
+    documented objective for l1 = n*l1_ratio*penalty, l2 = n*(1-l1_ratio)*penalty (y: the centred target).
+
+    The corresponding theorems about the block (multi-task) sweep [bcd_sweep] are in C11/PropertiesBlock.v. *)
 From Coq Require Import List QArith Qreals Reals.
 From LinfaVerif Require Import Common.Num Common.NdSum Common.QF Common.Convex C11.Model C11.Proofs C11.Descent C11.OlsGap.
 Import ListNotations.
